@@ -999,6 +999,8 @@ pub enum ScriptMode {
     DeadClonePanic,
     /// the destructor first downgrades the dead peer handle, drops that Weak, then clones (C16)
     DeadCloneAfterWeak,
+    /// the destructor copy-assigns (`clone_from`) one dead peer handle from another one (C16)
+    DeadCloneFrom,
 }
 
 fn split_build_and_drops(ops: Vec<Op>) -> (Vec<Op>, Vec<Op>) {
@@ -1081,7 +1083,7 @@ pub fn script_ops(idx: u64, seed: u64, mode: ScriptMode) -> (Vec<Op>, String) {
 /// before the scripts are attached (stale records; the documentation allows it).
 pub fn script_ops_ex(idx: u64, seed: u64, mode: ScriptMode, elide: bool) -> (Vec<Op>, String) {
     let mut rng = Rng::new(crate::rng::mix(seed ^ 0x5C21, idx));
-    let full = matches!(mode, ScriptMode::DeadClone | ScriptMode::DeadDrop | ScriptMode::DeadCloneLate | ScriptMode::DeadClonePanic | ScriptMode::DeadCloneAfterWeak) || rng.chance(1, 2) || (mode == ScriptMode::WeakEscape && rng.chance(2, 3));
+    let full = matches!(mode, ScriptMode::DeadClone | ScriptMode::DeadCloneFrom | ScriptMode::DeadDrop | ScriptMode::DeadCloneLate | ScriptMode::DeadClonePanic | ScriptMode::DeadCloneAfterWeak) || rng.chance(1, 2) || (mode == ScriptMode::WeakEscape && rng.chance(2, 3));
     let (mut build, drops, n, bdesc) = base_shape(&mut rng, idx, seed, full);
     let mut desc = bdesc;
     if elide {
@@ -1234,6 +1236,22 @@ pub fn script_ops_ex(idx: u64, seed: u64, mode: ScriptMode, elide: bool) -> (Vec
                     build.push(Op::Script(a as ObjId, When::Pre, Box::new(Op::CloneDead(k))));
                 }
                 desc = format!("{:?} by #{} on stored handle {} (-> #{}) {}", mode, a, k, held[a][k], desc);
+            }
+        }
+        ScriptMode::DeadCloneFrom => {
+            let held = stored_targets(&build, n);
+            let cands: Vec<usize> = (0..n).filter(|&i| !held[i].is_empty()).collect();
+            if let Some(&a) = rng.pick(&cands) {
+                let k = rng.below(held[a].len());
+                // usually give the acting member a second recorded handle to the same target
+                let twice = rng.chance(3, 4);
+                if twice {
+                    build.push(Op::Clone(HRef::S(a as ObjId, k)));
+                    build.push(Op::Adopt(HRef::P(a), HRef::P(crate::ops::rel(0))));
+                    build.push(Op::Store(a as ObjId, crate::ops::rel(0)));
+                }
+                build.push(Op::Script(a as ObjId, When::Pre, Box::new(Op::CloneFromDead(k))));
+                desc = format!("DeadCloneFrom by #{} on stored handle {} (-> #{}, second handle {}) {}", a, k, held[a][k], twice, desc);
             }
         }
         ScriptMode::DeadClone | ScriptMode::DeadDrop => {
